@@ -61,10 +61,11 @@ impl CornerRadii {
         let mut size = 0;
         let mut corner_size = 0;
 
-        let top_radii = self.top_left.width + self.top_right.width;
-        let right_radii = self.top_right.height + self.bottom_right.height;
-        let bottom_radii = self.bottom_left.width + self.bottom_right.width;
-        let left_radii = self.top_left.height + self.bottom_left.height;
+        // 64 bit integers are used because the sum of two radii can exceed the `u32` range.
+        let top_radii = u64::from(self.top_left.width) + u64::from(self.top_right.width);
+        let right_radii = u64::from(self.top_right.height) + u64::from(self.bottom_right.height);
+        let bottom_radii = u64::from(self.bottom_left.width) + u64::from(self.bottom_right.width);
+        let left_radii = u64::from(self.top_left.height) + u64::from(self.bottom_left.height);
 
         // Find the side with the largest overlap relative to its length. Scaling all radii by
         // the ratio of this side ensures that the radii do not overlap on any other side.
@@ -74,9 +75,10 @@ impl CornerRadii {
             (bottom_radii, bounding_box.width),
             (left_radii, bounding_box.height),
         ] {
-            if radii > side
+            if radii > u64::from(side)
                 && (corner_size == 0
-                    || u64::from(radii) * u64::from(size) > u64::from(corner_size) * u64::from(side))
+                    || u128::from(radii) * u128::from(size)
+                        > u128::from(corner_size) * u128::from(side))
             {
                 size = side;
                 corner_size = radii;
@@ -84,11 +86,19 @@ impl CornerRadii {
         }
 
         if corner_size > 0 {
+            // The scaled radii are smaller than `size` and do fit into a `u32`.
+            let scale = |radius: Size| {
+                Size::new(
+                    (u64::from(radius.width) * u64::from(size) / corner_size) as u32,
+                    (u64::from(radius.height) * u64::from(size) / corner_size) as u32,
+                )
+            };
+
             Self {
-                top_left: (self.top_left * size) / corner_size,
-                top_right: (self.top_right * size) / corner_size,
-                bottom_right: (self.bottom_right * size) / corner_size,
-                bottom_left: (self.bottom_left * size) / corner_size,
+                top_left: scale(self.top_left),
+                top_right: scale(self.top_right),
+                bottom_right: scale(self.bottom_right),
+                bottom_left: scale(self.bottom_left),
             }
         } else {
             self
